@@ -84,7 +84,7 @@ def ev(expr, env, M):
     raise Unsupported(repr(expr))
 
 
-def boolev_list(exprs, input_names, n=None):
+def boolev_list(exprs, input_names, n=None, lenient=False):
     """Evaluate an expression list sequentially.  Returns (env, M); env maps every input and
     every defined symbol name to its final column.  Raises KeyError on a free symbol that is
     neither an input nor defined earlier."""
@@ -93,7 +93,14 @@ def boolev_list(exprs, input_names, n=None):
     M = mask(n)
     env = {nm: col(i, n) for i, nm in enumerate(input_names)}
     for s, e in exprs:
-        env[s.name if isinstance(s, Symbol) else str(s)] = ev(e, env, M)
+        nm = s.name if isinstance(s, Symbol) else str(s)
+        if lenient:
+            try:
+                env[nm] = ev(e, env, M)
+            except KeyError:
+                env.pop(nm, None)  # poisoned: anything that reads it is poisoned too
+        else:
+            env[nm] = ev(e, env, M)
     return env, M
 
 
